@@ -720,16 +720,25 @@ public:
         // size parameter name). By adding `_<depth>` suffix we ensure that
         // there will be no two identical parameter names because each level has
         // unique suffix which is used only in case of conflicts.
-        if(std::find(
-               std::begin(existing_names),
-               std::end(existing_names),
-               desired_name)
-           != std::end(existing_names))
+        // The suffixed name itself can be taken too (e.g. by a group from
+        // another branch whose path gives the same concatenation) so the
+        // suffix is bumped until the name is really unique.
+        const auto is_taken = [&existing_names](const std::string& name)
         {
-            return fmt::format("{}_{}", desired_name, level_depth);
+            return std::find(
+                       std::begin(existing_names),
+                       std::end(existing_names),
+                       name)
+                   != std::end(existing_names);
+        };
+
+        auto name = desired_name;
+        for(auto suffix = level_depth; is_taken(name); suffix++)
+        {
+            name = fmt::format("{}_{}", desired_name, suffix);
         }
 
-        return desired_name;
+        return name;
     }
 
     std::string get_group_payload_size(
